@@ -4,6 +4,23 @@
  * Script lines:  M <size> | B <hex64 size> | A <hex64 count> <hex64 size> | N | O | W | R <off> | T <off> | F */
 #include "common.h"
 #include <setjmp.h>
+#include <stddef.h>
+#include <linux/filter.h>
+#include <linux/seccomp.h>
+#include <sys/prctl.h>
+#include <sys/syscall.h>
+/* VERIF_MLOCK_FAIL=1: the process may not lock memory (as without CAP_IPC_LOCK beyond RLIMIT_MEMLOCK, or under a sandbox policy):
+ * mlock / mlock2 answer ENOMEM. Locking is best effort in sodium_malloc; the guard pages and the canary do not depend on it. */
+static int deny_mlock(void) {
+    struct sock_filter flt[] = {
+        BPF_STMT(BPF_LD | BPF_W | BPF_ABS, (unsigned) offsetof(struct seccomp_data, nr)),
+        BPF_JUMP(BPF_JMP | BPF_JEQ | BPF_K, __NR_mlock, 1, 0),
+        BPF_JUMP(BPF_JMP | BPF_JEQ | BPF_K, __NR_mlock2, 0, 1),
+        BPF_STMT(BPF_RET | BPF_K, SECCOMP_RET_ERRNO | (ENOMEM & SECCOMP_RET_DATA)),
+        BPF_STMT(BPF_RET | BPF_K, SECCOMP_RET_ALLOW) };
+    struct sock_fprog prog = { (unsigned short) (sizeof flt / sizeof flt[0]), flt };
+    return prctl(PR_SET_NO_NEW_PRIVS, 1, 0, 0, 0) == 0 && prctl(PR_SET_SECCOMP, SECCOMP_MODE_FILTER, &prog) == 0;
+}
 
 static sigjmp_buf jb; static volatile sig_atomic_t probing;
 static void on_fault(int sig) { if (probing) siglongjmp(jb, 1); v_crash_handler(sig); }
@@ -34,6 +51,8 @@ int main(int argc, char **argv) {
     FILE *sc = fopen(argv[1], "r"); if (!sc) return 3;
     v_open(argv[2]);
     if (sodium_init() < 0) return 3;
+    if (getenv("VERIF_MLOCK_FAIL")) { int ok = deny_mlock(); char probe_[64]; int lr = ok ? mlock(probe_, 1) : 0;
+        fprintf(v_out, "{\"e\":\"env\",\"mlock_denied\":%s}\n", (ok && lr != 0) ? "true" : "false"); }
     struct sigaction sa; memset(&sa, 0, sizeof sa); sa.sa_handler = on_fault; sa.sa_flags = SA_NODEFER;
     sigaction(SIGSEGV, &sa, NULL); sigaction(SIGBUS, &sa, NULL); signal(SIGABRT, v_crash_handler);
     long ps = sysconf(_SC_PAGESIZE);
